@@ -6,7 +6,7 @@ globals().update(
         pid="C16",
         props=["JaqalProofs/Props/C16.lean", "JaqalProofs/Props/C16ParseBuild.lean", "JaqalProofs/Props/C16Builder.lean"],
         targets=["JaqalProofs.Props.C16", "JaqalProofs.Props.C16ParseBuild", "JaqalProofs.Props.C16Builder"],
-        diffs=[("harness.agents.c16_diff", 150, 700), ("harness.agents.c16_edge", 150, 700)],
+        diffs=[("harness.agents.c16_diff", 150, 700), ("harness.agents.c16_edge", 150, 700), ("harness.agents.c16_combo", 120, 500)],
         trusted=[
             STD_TRUST,
             "composition of all component models in JaqalModel/Model/RunModel.lean: `runModel cfg ov txt` = parse_jaqal_string followed by run_jaqal_circuit up to (not including) floating-point arithmetic: parse → build → expand_subcircuits → fill_in_let → expand_macros → discovery + disjointness → register / native-gate checks → per-trace serialisation → walk",
